@@ -6,6 +6,7 @@ import json
 from hypothesis import strategies as st
 
 from ..common import Violation, Skip, run_cases, guarded, rejection_types
+from ..gen.templates import programs_or_templates
 from ..gen.programs import programs, build, render_program
 from .. import sched
 from ..fingerprint import fingerprint
@@ -156,11 +157,11 @@ def check_case(case):
 
 def case_strategy(max_steps, names):
     step = st.tuples(st.sampled_from(names), st.integers(0, 40), st.integers(0, 23), st.integers(0, 47), st.integers(0, 13)).map(list)
-    return st.fixed_dictionaries({"prog": programs(max_stmts=10), "steps": st.lists(step, min_size=2, max_size=max_steps)})
+    return st.fixed_dictionaries({"prog": programs_or_templates(25, max_stmts=10), "steps": st.lists(step, min_size=2, max_size=max_steps)})
 
 
 def run(ctx):
     global CTX
     CTX = ctx
     names = sched.op_names(unsafe=True) + ["q.find", "q.str", "q.code", "q.is_eq", "q.forward"] * 3
-    run_cases(ctx, case_strategy(8 if ctx.tier == "quick" else 16, names), guarded(ctx, check_case), ctx.budget(1400, 50000))
+    run_cases(ctx, case_strategy(8 if ctx.tier == "quick" else 16, names), guarded(ctx, check_case), ctx.budget(640, 50000))
